@@ -572,6 +572,7 @@ type obsOut struct {
 	Crashes  int      `json:"crash_or_nil"`
 	Fresh    bool     `json:"fresh_process_ok"`
 	First    []string `json:"first_ids"`
+	Pair     []string `json:"offending_pair,omitempty"` // two objects and their ids
 }
 
 func run(raw json.RawMessage) lib.Case {
@@ -692,7 +693,77 @@ func run(raw json.RawMessage) lib.Case {
 	if len(o.First) > 8 {
 		o.First = o.First[:8]
 	}
-	return lib.Case{Coq: coq, Class: in.Kind + "-" + in.Label, Obs: o, Nontrivial: n > 1}
+	c := lib.Case{Coq: coq, Class: in.Kind + "-" + in.Label, Obs: o, Nontrivial: n > 1}
+	// A group in which two different objects share an id (or two equal objects do
+	// not) is reported with the two objects alone as its replay input.
+	if i, j, ok := offendingPair(&in, first); ok {
+		c.Input = subGroup(&in, i, j)
+		o.Pair = []string{objectKey(&in, i), objectKey(&in, j), first[i], first[j]}
+		c.Obs = o
+	}
+	return c
+}
+
+// objectKey is a canonical text of object i of the group (what the id is meant to identify)
+func objectKey(in *input, i int) string {
+	var v interface{}
+	switch in.Kind {
+	case "rosters":
+		v = in.Rosters[i]
+	case "trees":
+		_, rid := treeRoster(in, in.Trees[i])
+		v = []interface{}{rid, in.Trees[i].T}
+	case "tokens":
+		v = in.Tokens[i]
+	case "protos", "services":
+		v = in.Names[i]
+	default:
+		v = in.Keys[i]
+	}
+	b, _ := json.Marshal(v)
+	return string(b)
+}
+
+func offendingPair(in *input, first []string) (int, int, bool) {
+	byID := map[string]int{}
+	byObj := map[string]int{}
+	for i, id := range first {
+		if id == "crash" || id == "nil" {
+			continue
+		}
+		k := objectKey(in, i)
+		if j, ok := byID[id]; ok && objectKey(in, j) != k {
+			return j, i, true
+		}
+		if j, ok := byObj[k]; ok && first[j] != id {
+			return j, i, true
+		}
+		if _, ok := byID[id]; !ok {
+			byID[id] = i
+		}
+		if _, ok := byObj[k]; !ok {
+			byObj[k] = i
+		}
+	}
+	return 0, 0, false
+}
+
+func subGroup(in *input, i, j int) input {
+	out := input{Kind: in.Kind, Label: in.Label}
+	switch in.Kind {
+	case "rosters":
+		out.Rosters = [][]mem{in.Rosters[i], in.Rosters[j]}
+	case "trees":
+		out.Rosters = in.Rosters
+		out.Trees = []treeIn{in.Trees[i], in.Trees[j]}
+	case "tokens":
+		out.Tokens = [][6]string{in.Tokens[i], in.Tokens[j]}
+	case "protos", "services":
+		out.Names = []string{in.Names[i], in.Names[j]}
+	default:
+		out.Keys = []int{in.Keys[i], in.Keys[j]}
+	}
+	return out
 }
 
 func main() {
